@@ -504,7 +504,12 @@ def execute(trace, env=None):
                              j, ' (a copy)' if o.copied else '', got, ref),
                          obj=j, step=si)
             elif k == 'finish':
-                if o.copied:
+                # (finishing a circular model again runs the cycle solver a
+                # second time, on the graph it has already cut: where no
+                # clause of C10 fixes the outcome it may differ from the
+                # model finished once - from then on the object is only a
+                # source of interference, like a structurally changed copy)
+                if o.copied or s.get('circular'):
                     o.changed = True
                 disk = SimDisk().install()
                 try:
@@ -583,6 +588,9 @@ def precompute_refs(trace, world, s, P, all_adds, stats):
                                                      op['args']),
                                      n_inputs(spec_of[j]))
             elif k in ('finish', 'add') and copied[j] and \
+                    trace['objects'][j]['kind'] != 'compile':
+                changed[j] = True
+            elif k == 'finish' and trace['schedule'].get('circular') and \
                     trace['objects'][j]['kind'] != 'compile':
                 changed[j] = True
             if k == 'add' and not copied[j]:
